@@ -225,8 +225,16 @@ class Ctx:
 _POOL_FN: Callable | None = None
 
 
+def quiet_unraisable() -> None:
+    """Executions aborted mid-flight leave suspended task coroutines behind;
+    their finalisers run at arbitrary GC points and can only print
+    "Exception ignored in: <coroutine ...>" noise."""
+    sys.unraisablehook = lambda *a: None
+
+
 def _pool_init(initfn: Callable | None) -> None:
     select_repo()
+    quiet_unraisable()
     if initfn is not None:
         initfn()
 
